@@ -4,3 +4,4 @@ PAIRS = [A[k] for k in ("realloc_zero", "recalloc", "fwd_rezalloc")] + [v for k,
 # the allocation path itself: zeroing by the page allocator, and for huge pages over the whole usable block afterwards
 import page_common
 PAIRS += [page_common.pairs()["page_malloc"]] + page_common.malloc_generic_pairs()
+PAIRS += alloc_common.dispatch_pairs()      # entry of every allocation: the zero flag and the size reach the page layer / the generic path unchanged; mi_heap_zalloc asks for zeroing
